@@ -676,4 +676,22 @@ theorem unified_fixed (n : Nat) (xs : List IOp) (old new : List Nat)
     applyU 0 0 old (hunksFixed n xs old new) = some new :=
   unified_main n (renumber 0 0 xs) old new (renumber_inOrder xs 0 0) (by rw [renumber_ops]; exact hv)
 
+theorem renumber_id (xs : List IOp) : ∀ oi ni, InOrder oi ni xs = true → renumber oi ni xs = xs := by
+  induction xs with
+  | nil => intro _ _ _; rfl
+  | cons x r ih =>
+    intro oi ni h
+    obtain ⟨op, a, b⟩ := x
+    cases op <;>
+      (simp only [InOrder, Bool.and_eq_true, decide_eq_true_eq] at h
+       obtain ⟨⟨h1, h2⟩, h3⟩ := h
+       subst h1; subst h2
+       simp only [renumber, oldLen, newLen]
+       rw [ih _ _ (by simpa [oldLen, newLen] using h3)])
+
+/-- where the index fields were right, the repair changes nothing -/
+theorem fixed_eq_pinned (n : Nat) (xs : List IOp) (old new : List Nat) (h : InOrder 0 0 xs = true) :
+    hunksFixed n xs old new = hunks n xs old new := by
+  unfold hunksFixed
+  rw [renumber_id xs 0 0 h]
 end StyluaModel.UnifiedLemmas
